@@ -150,6 +150,13 @@ func drawNet(rt *rapid.T, p *Plan, prop, tier string) *Plan {
 		np.MaxSysFee = []int{0, 0, 5, 9, 21}[rapid.IntRange(0, 4).Draw(rt, "maxsysfee")]
 		np.MaxBlkSize = []int{0, 0, 1500, 2600}[rapid.IntRange(0, 3).Draw(rt, "maxblksize")]
 	}
+	if prop == "C19" && rapid.IntRange(0, 3).Draw(rt, "limits19") == 0 {
+		// small block limits: the primary's packing and the backups' verification of a proposal have to agree on them
+		ntx = rapid.IntRange(4, 14).Draw(rt, "ntx19")
+		np.MaxTxPB = rapid.IntRange(0, 3).Draw(rt, "maxtxpb19")
+		np.MaxSysFee = []int{0, 5, 9, 21}[rapid.IntRange(0, 3).Draw(rt, "maxsysfee19")]
+		np.MaxBlkSize = []int{0, 0, 1500, 2600}[rapid.IntRange(0, 3).Draw(rt, "maxblksize19")]
+	}
 	for i := 0; i < ntx; i++ {
 		t := NetTx{AtMS: rapid.IntRange(0, np.DurationMS-1000).Draw(rt, "txat"), Op: drawOp(rt, p.Proto.P2PSig),
 			Targets: uint8(rapid.IntRange(1, 31).Draw(rt, "targets"))}
